@@ -5,20 +5,29 @@ package sipsp
 // C06: message framing: Content-Length, body modes, pipelining.
 
 // H_C06_clen: skeleton + "Content-Length:" + d symbolic digits + CRLF CRLF + m body bytes.
-func H_C06_clen(d, m int) {
+func H_C06_clen(d, m int) { c06clen(d, m, 0) }
+
+// H_C06_clen_at: the same message starting at offset k of the buffer (as the
+// second message of a pipelined stream does).
+func H_C06_clen_at(d, m, k int) { c06clen(d, m, k) }
+
+func c06clen(d, m, k int) {
 	pre := "INVITE sip:a SIP/2.0\r\nf:a\r\nContent-Length: "
 	dig := vBytes(d)
 	vAssume(vAllDigits(dig))
 	buf := append([]byte(pre), dig...)
 	buf = append(buf, '\r', '\n', '\r', '\n')
-	hdrEnd := len(buf)
+	hdrEnd := k + len(buf)
 	for i := 0; i < m; i++ {
 		buf = append(buf, 'x')
+	}
+	if k > 0 {
+		buf = vPad(k, []byte{'\r', '\n'}, buf)
 	}
 	flags := vU8() & 7
 	var msg PSIPMsg
 	msg.Init(nil, nil, nil)
-	ret, e := ParseSIPMsg(buf, 0, &msg, flags)
+	ret, e := ParseSIPMsg(buf, k, &msg, flags)
 	n, sat := refDec(dig, 1<<24)
 	tooBig := vOr(sat, d > 9)
 	skip := flags&SIPMsgSkipBodyF != 0
